@@ -215,6 +215,14 @@ fn big_prelude() -> Vec<String> {
         out.push(format!("INSERT INTO big3 VALUES {}", r3.join(", ")));
     }
     out.push("CREATE INDEX big1_v ON big1 (v)".into());
+    // big4: a unique key in permuted insertion order with an index on it — an ORDER BY on that key can
+    // be answered by the index scan, so whatever filters the scanned rows afterwards must keep their order
+    out.push("CREATE TABLE big4 (k INT, v INT)".to_string());
+    for chunk in 0..5 {
+        let rows: Vec<String> = ((chunk * 500)..((chunk + 1) * 500)).map(|i: usize| format!("({}, {})", (i * 7919) % 2503, (i * 31) % 2000)).collect();
+        out.push(format!("INSERT INTO big4 VALUES {}", rows.join(", ")));
+    }
+    out.push("CREATE INDEX big4_k ON big4 (k)".into());
     out
 }
 
@@ -246,6 +254,11 @@ fn big_corpus() -> Vec<WQ> {
         q("SELECT COUNT(*), SUM(id) FROM big1 WHERE EXISTS (SELECT 1 FROM big2 WHERE big2.id = big1.id)", true, "big_semi_join"),
         q("SELECT COUNT(*), SUM(id) FROM big1 WHERE NOT EXISTS (SELECT 1 FROM big2 WHERE big2.id = big1.id)", true, "big_anti_join"),
         q("SELECT id FROM big1 WHERE NOT EXISTS (SELECT 1 FROM big2 WHERE big2.id = big1.id) AND id >= 1240 ORDER BY id", true, "big_anti_join"),
+        // index-provided order followed by a filter that is evaluated row by row (not columnar / SIMD)
+        q("SELECT k, v FROM big4 WHERE k + k > 1500 OR v + v < 400 ORDER BY k", true, "big_index_order_filter"),
+        q("SELECT k FROM big4 WHERE v + v < 3000 ORDER BY k DESC", true, "big_index_order_filter"),
+        q("SELECT k FROM big4 WHERE k + 0 >= 0 ORDER BY k LIMIT 50 OFFSET 1200", true, "big_index_order_filter"),
+        q("SELECT k, v FROM big4 WHERE k > 100 AND v + k > 1000 ORDER BY k", true, "big_index_order_filter"),
         // sorts
         q("SELECT id, v FROM big1 ORDER BY v, id", true, "big_sort"),
         q("SELECT id, v FROM big1 ORDER BY v DESC, id DESC", true, "big_sort"),
